@@ -258,6 +258,6 @@ META = dict(
            "C01's business)", "Network.send_message replaced on the instance"],
     required_reach=["decode-unknown"] + ["decode-" + s for s in D.ALL_STATES] +
                    ["refused", "commanded", "bad-target-refused", "mode-refused", "mode-set", "sequence"],
-    limits=dict(quick=dict(max_decisions=20000), thorough=dict(max_decisions=20000)),
+    limits=dict(quick=dict(max_decisions=20000), thorough=dict(max_decisions=20000, crosscheck_every=2, crosscheck_max=30)),
     validate_every=dict(quick=2, thorough=1),
 )
